@@ -284,10 +284,30 @@ def register(M):
                 return Err(io_error('Other'))
             return Ok(mk_int(room, 'usize'))
         else:
-            h = ex.prog.resolve('<%s as Write>::%s' % (getattr(w, 'name', type(w).__name__), info.method), None) if isinstance(w, Struct) else None
-            if h is None:
+            nm = getattr(w, 'name', type(w).__name__)
+            h = ex.prog.resolve('<%s as Write>::%s' % (nm, info.method), None) if isinstance(w, Struct) else None
+            wp = args[0]
+            while isinstance(wp, Ptr) and isinstance(wp.load(), Ptr):
+                wp = wp.load()
+            if h is not None:
+                return ex.call_fn(h, [wp, args[1]])
+            hw = ex.prog.resolve('<%s as Write>::write' % nm, None) if isinstance(w, Struct) and info.method == 'write_all' else None
+            if hw is None:
                 raise Unsupported('Write::%s on %s' % (info.method, type(w).__name__))
-            return ex.call_fn(h, [Ptr(Cell(w)), args[1]])
+            # std's default write_all: loop over write() until everything is taken; Ok(0) is WriteZero
+            sl = src if isinstance(src, SliceRef) else None
+            if sl is None:
+                raise Unsupported('write_all of a non-slice through a user Write impl')
+            done = 0
+            while done < sl.n:
+                r = ex.force(ex.call_fn(hw, [wp, SliceRef(sl.ptr, sl.start + done, sl.n - done)]))
+                if r.variant == 'Err':
+                    return r
+                k = ex.concretize(r.f[0], 0, sl.n - done + 1, 'bytes written')
+                if k == 0:
+                    return Err(io_error('WriteZero'))
+                done += k
+            return Ok(Unit())
         return Ok(Unit()) if info.method == 'write_all' else Ok(mk_int(len(items), 'usize'))
 
     @M.trait('Write', 'flush')
